@@ -62,6 +62,32 @@ def _pixel_lexer_shift(ctx):
     return shifts, f
 
 
+def _frame_given(t, _d=0):
+    """the term with every `<frame> is None` test decided for a sky region (its frame name is a string, never None)."""
+    if _d > 60:
+        return t
+    if isinstance(t, Ite):
+        c = t.cond
+        neg = False
+        while isinstance(c, BoolT) and c.op in ('not', 'truthy') and len(c.args) == 1:
+            neg ^= (c.op == 'not')
+            c = c.args[0]
+        if isinstance(c, Cmp) and c.op in ('is', 'isnot') and isinstance(c.rhs, Const) and c.rhs.v is None \
+                and 'frame' in show(c.lhs, 8000):
+            val = (c.op == 'isnot') ^ neg
+            return _frame_given(t.a if val else t.b, _d + 1)
+        return Ite(_frame_given(t.cond, _d + 1), _frame_given(t.a, _d + 1), _frame_given(t.b, _d + 1))
+    if isinstance(t, BoolT):
+        return BoolT(t.op, tuple(_frame_given(a, _d + 1) for a in t.args))
+    if isinstance(t, Cmp):
+        return Cmp(t.op, _frame_given(t.lhs, _d + 1), _frame_given(t.rhs, _d + 1))
+    if isinstance(t, App):
+        return App(t.name, tuple(_frame_given(a, _d + 1) for a in t.args))
+    if isinstance(t, Tup):
+        return Tup(tuple(_frame_given(a, _d + 1) for a in t.items), t.kind)
+    return t
+
+
 def r1(ctx):
     m = ctx.model
     classes = ds9.ds9_classes(m)
@@ -136,7 +162,7 @@ def r1(ctx):
             elif t['kind'] in ('skycoord', 'skycoords') and t['comp'] in ('lon', '*'):
                 # the numbers are read back in the frame named on the frame line (default attributes): the field's own
                 # coordinate must be transformed to that frame before it is printed
-                txt = show(t['expr'], 6000)
+                txt = show(_frame_given(t['expr']), 6000)
                 own = f'attr:transform_to(attr:frame(region.{t["field"]}))'
                 if own not in txt or 'frame_transform_graph.lookup_name(' not in txt:
                     probs.append(f'{t["field"]} is printed in its own frame (with its own frame attributes), not in the frame '
